@@ -352,7 +352,9 @@ class TFLiteSemantic:
         extra = []
         tensors = [tens for tens in op.get_ifm_ifm2_weights_ofm() if tens]
         for tens in tensors:
-            if tens.quantization is None:
+            quant = tens.quantization
+            # a scale without a zero point is an incomplete record: the scaling code reads both
+            if quant is None or (quant.scale_f32 is not None and quant.zero_point is None):
                 valid = False
                 extra.append(tens.name)
         extra = ", ".join(extra)
